@@ -231,7 +231,43 @@ def sweep(fx, R):
           try:
               sts = sym.Reader(fx).run(g)
           except sym.Unsupported as u:
-              R.undecided('H3', inst, 'user-provided %s not interpretable: %s' % (kind, u))
+              # loops and the like: the stores of the body are classified structurally - a member the read functions use must be assigned from the same member of the source on every path
+              pname_ = g['params'][0]['name'] if g.get('params') else 'other'
+              found_ = {}
+
+              def scan_(node, under):
+                  if not isinstance(node, dict):
+                      return
+                  k_ = node.get('k')
+                  if k_ == 'If':
+                      for arm in (node.get('t'), node.get('e')):
+                          if arm is not None:
+                              scan_(arm, under + [pp(node['c'])[:100]])
+                      return
+                  if k_ in ('Compound',):
+                      for y_ in node.get('s', []):
+                          scan_(y_, under)
+                      return
+                  if k_ in ('For', 'While', 'Do', 'RangeFor'):
+                      scan_(node.get('b'), under)
+                      return
+                  if k_ == 'Expr':
+                      for (bm, rhs) in stores_in(node):
+                          if bm.get('cls') == cls and bm.get('name') in fields:
+                              from_src = any(isinstance(y_, dict) and y_.get('k') == 'Member' and y_.get('name') == bm['name'] and isinstance(strip_casts(y_.get('base')), dict)
+                                             and strip_casts(y_['base']).get('name') == pname_ for y_ in walk(rhs))
+                              found_.setdefault(bm['name'], []).append((from_src, list(under)))
+              scan_(g['body'], [])
+              cond_only = [(fl_, v_[0][1][0]) for fl_, v_ in found_.items() if fl_ in read and all(fs_ and un_ for (fs_, un_) in v_)]
+              never = [fl_ for fl_ in read if fl_ not in found_ and not g.get('copyctor')]
+              if cond_only:
+                  R.violated('H3', inst, 'the user-provided %s hands over %s only when `%s`; otherwise the target keeps the value it had - while the other members ARE taken from the source.  After `a = b` the object a '
+                             'then mixes b\'s %s with its own old %s: what the functions this property reads return is neither a\'s old answer nor b\'s' % (kind, cond_only[0][0], cond_only[0][1], ', '.join(sorted(f_ for f_ in found_ if f_ not in dict(cond_only))) or 'members',
+                                                                                               cond_only[0][0]), fx.rel(g['loc']), 'E-STATE')
+              elif never:
+                  R.undecided('H3', inst, 'user-provided %s not interpretable (%s); no assignment of %s found' % (kind, u, ', '.join(never)))
+              else:
+                  R.undecided('H3', inst, 'user-provided %s not interpretable: %s' % (kind, u))
               continue
           pname = g['params'][0]['name'] if g.get('params') else 'other'
           lost = []
